@@ -2,6 +2,7 @@ package refpgp
 
 import (
 	"bytes"
+	"crypto/sha1"
 	"fmt"
 )
 
@@ -70,6 +71,33 @@ func SelfTest() error {
 	}
 	if got := string(CanonText([]byte("a\nb\r\nc\n"))); got != "a\r\nb\r\nc\r\n" {
 		return fmt.Errorf("CanonText = %q", got)
+	}
+	// S2K (section 3.7.1): simple = one digest of the passphrase; salted with an empty salt =
+	// simple; iterated with a count not above len(salt+passphrase) = salted; a key longer
+	// than one digest continues with a context preloaded with one zero octet
+	{
+		pw, salt := []byte("passphrase"), []byte("saltsalt")
+		d := sha1.Sum(pw)
+		if !bytes.Equal(S2K(sha1.New, 0, nil, 0, pw, 20), d[:]) || !bytes.Equal(S2K(sha1.New, 1, nil, 0, pw, 16), d[:16]) {
+			return fmt.Errorf("S2K simple/salted")
+		}
+		if !bytes.Equal(S2K(sha1.New, 3, salt, 0, bytes.Repeat(pw, 200), 20), S2K(sha1.New, 1, salt, 0, bytes.Repeat(pw, 200), 20)) {
+			return fmt.Errorf("S2K iterated with a small count")
+		}
+		d2 := sha1.Sum(append([]byte{0}, pw...))
+		if k := S2K(sha1.New, 0, nil, 0, pw, 32); !bytes.Equal(k[:20], d[:]) || !bytes.Equal(k[20:], d2[:12]) {
+			return fmt.Errorf("S2K multi-context")
+		}
+		// count 65536 (coded 96) over an 18-byte salt+passphrase: 3640 full copies and 16 bytes
+		h := sha1.New()
+		data := append(append([]byte{}, salt...), pw...)
+		for i := 0; i < 65536/len(data); i++ {
+			h.Write(data)
+		}
+		h.Write(data[:65536%len(data)])
+		if !bytes.Equal(S2K(sha1.New, 3, salt, 96, pw, 20), h.Sum(nil)) {
+			return fmt.Errorf("S2K iterated")
+		}
 	}
 	fr := [][]byte{OTRFragment(1, 2, []byte("?OTR:AA")), OTRFragment(2, 2, []byte("AA."))}
 	if m, ok := OTRReassemble(fr); !ok || string(m) != "?OTR:AAAA." {
